@@ -124,7 +124,7 @@ package helpers
 //@ func NewResponse
 //@   props C05 C07 C08
 //@   requires cap >= 0
-//@   modifies $alloc, result.ch, result.res, $chan(result.ch), $open(result.ch), key CH:cap
+//@   modifies $alloc, result.ch, result.res, $chan(result.ch), $open(result.ch), $cap(result.ch)
 //@   ensures [fresh] $fresh(result) && result.ch != nil && $fresh(result.ch)
 //@   ensures [chan]  $open(result.ch) && $cap(result.ch) == cap && $sent(result.ch) == 0 && $rcvd(result.ch) == 0
 
